@@ -1074,4 +1074,21 @@ theorem collectFrom_sorted (ls : List (List Char)) : ∀ k,
       | inl e => rw [e]; simp
       | inr e => have := hge p e; omega
 
+/-! ## sortedness by rank -/
+
+theorem pairwise_rank_const (l : List Kind) (r : Nat) (h : ∀ x ∈ l, x.rank = r) :
+    l.Pairwise (fun x y => x.rank ≤ y.rank) := by
+  induction l with
+  | nil => exact List.Pairwise.nil
+  | cons a l ih =>
+    refine List.pairwise_cons.mpr ⟨?_, ih (fun x hx => h x (List.mem_cons_of_mem _ hx))⟩
+    intro y hy
+    rw [h a List.mem_cons_self, h y (List.mem_cons_of_mem _ hy)]
+    exact Nat.le_refl _
+
+theorem pairwise_rank_append (l1 l2 : List Kind) (r : Nat) (h1 : ∀ x ∈ l1, x.rank ≤ r) (h2 : ∀ y ∈ l2, r ≤ y.rank)
+    (p1 : l1.Pairwise (fun x y => x.rank ≤ y.rank)) (p2 : l2.Pairwise (fun x y => x.rank ≤ y.rank)) :
+    (l1 ++ l2).Pairwise (fun x y => x.rank ≤ y.rank) :=
+  List.pairwise_append.mpr ⟨p1, p2, fun x hx y hy => Nat.le_trans (h1 x hx) (h2 y hy)⟩
+
 end ParseNorm
